@@ -640,7 +640,8 @@ func (envs *Manager) TeardownEnvironment(environmentId uid.ID, force bool) error
 		}).Error(fmt.Errorf("could not handle hooks for the trigger leave_%s, error: %w", env.CurrentState(), err))
 	}
 
-	if env.CurrentState() == "RUNNING" {
+	// a run is also still open when the environment was forced to ERROR because GO_ERROR could not complete
+	if env.CurrentState() == "RUNNING" || (env.CurrentState() == "ERROR" && env.GetCurrentRunNumber() != 0) {
 		endTime, ok := env.workflow.GetUserVars().Get("run_end_time_ms")
 		if ok && endTime == "" {
 			runEndTime := time.Now()
